@@ -118,3 +118,63 @@ func checkNoInPlaceMutation(p *core.Prog, r *core.Report, rule string) {
 	}
 	r.Check(len(bad) == 0, rule, "storage/store/no-in-place-mutation", "a byte slice read from the store (kv value, Get* answer, delta value) is never the base of an append, the destination of a copy or the target of an indexed write: new values are built in fresh buffers", strings.Join(bad, "; "), "")
 }
+
+// checkMarshallersStateless (C10.R2, C18.R2): a store marshaller keeps nothing between calls — its methods write no
+// receiver field and the bytes Marshal returns do not alias one.  Save hands the bytes to a writer that uploads them
+// later (asynchronously in the squasher) while the store goes on being merged and saved again: a buffer reused by the
+// next Marshal would be overwritten under the pending upload.
+func checkMarshallersStateless(p *core.Prog, r *core.Report, rule string) {
+	n := 0
+	var bad []string
+	for _, fn := range p.RepoFunctions() {
+		if fn.Pkg == nil || fn.Pkg.Pkg.Path() != core.ModPath+"/"+pkgMarsh || fn.Signature.Recv() == nil || fn.Parent() != nil {
+			continue
+		}
+		if fn.Name() != "Marshal" && fn.Name() != "Unmarshal" {
+			continue
+		}
+		n++
+		r.Touch(core.FuncName(fn))
+		recv := fn.Params[0]
+		core.Instrs(fn, func(in ssa.Instruction) {
+			switch x := in.(type) {
+			case *ssa.Store:
+				if fa, ok := x.Addr.(*ssa.FieldAddr); ok && derivesFromParam(fa.X, recv) {
+					bad = append(bad, fmt.Sprintf("%s writes its field %s at %s", core.FuncName(fn), core.FieldOfAddr(fa).Name(), p.Pos(in.Pos())))
+				}
+			case *ssa.Return:
+				if fn.Name() != "Marshal" || len(x.Results) == 0 {
+					return
+				}
+				// the returned bytes: walk slices/phis back to their root
+				seen := map[ssa.Value]bool{}
+				var walk func(v ssa.Value)
+				walk = func(v ssa.Value) {
+					if seen[v] {
+						return
+					}
+					seen[v] = true
+					switch y := v.(type) {
+					case *ssa.Slice:
+						walk(y.X)
+					case *ssa.Phi:
+						for _, e := range y.Edges {
+							walk(e)
+						}
+					case *ssa.ChangeType:
+						walk(y.X)
+					case *ssa.UnOp:
+						if f, base := core.LoadedField(y); f != nil && derivesFromParam(base, recv) {
+							bad = append(bad, fmt.Sprintf("%s returns bytes held in its field %s at %s", core.FuncName(fn), f.Name(), p.Pos(in.Pos())))
+						}
+					}
+				}
+				walk(core.ResolveCell(x.Results[0]))
+			}
+		})
+	}
+	if n < 6 {
+		core.Undecide("only %d Marshal/Unmarshal methods found in the marshaller package", n)
+	}
+	r.Check(len(bad) == 0, rule, "marshallers/stateless", "store marshallers keep no state between calls: no receiver field is written and the bytes returned by Marshal are not a view of one (a pending upload is never overwritten by the next Marshal)", strings.Join(bad, "; "), "")
+}
